@@ -103,3 +103,36 @@ M.contract('xtuml.load.ModelLoader.populate_associations', [('self', LOADER), ('
                                                       'for j in range(0, len(metamodel.associations_made)))',
                                'positions-are-below-the-count': 'all(implies(isinstance(self.statements[j], CreateAssociationStmt), 0 <= n_assocs(self.statements, j) '
                                                                 'and n_assocs(self.statements, j) < n_assocs(self.statements, _i)) for j in range(0, _i)) and n_assocs(self.statements, _i) >= 0'})})
+
+# ---- instances: one creation per INSERT statement, in statement order, through the named or the positional route as the statement
+#      was written (call trace; what each route stores is decided by the bounded tier and, for values, by contracts.c01)
+M.fields({'Stmt.names': NAMES, 'MetaModel.instances_populated': SeqT(TupT(BOOL, STMT))})
+WHY_I = 'call-trace abstraction: the creation is recorded with its route and statement (bounded c12 / c18 / c01 own the real function)'
+M.contract('xtuml.load.ModelLoader._populate_instance_with_named_arguments', [('metamodel', MM), ('stmt', STMT)], returns=NONE, trusted=True, reason=WHY_I,
+           kind='staticmethod',
+           ensures={'recorded': 'metamodel.instances_populated == old(metamodel.instances_populated) + [(True, stmt)]'}, modifies=['metamodel.instances_populated'])
+M.contract('xtuml.load.ModelLoader._populate_instance_with_positional_arguments', [('metamodel', MM), ('stmt', STMT)], returns=NONE, trusted=True, reason=WHY_I,
+           kind='staticmethod',
+           ensures={'recorded': 'metamodel.instances_populated == old(metamodel.instances_populated) + [(False, stmt)]'}, modifies=['metamodel.instances_populated'])
+M.spec('''
+def n_insts(stmts, k):
+    return 0 if k <= 0 else n_insts(stmts, k - 1) + (1 if isinstance(stmts[k - 1], CreateInstanceStmt) else 0)
+''', sorts={'n_insts': ([SeqT(STMT), INT], INT, [])})
+INS = ('all(implies(isinstance(self.statements[j], CreateInstanceStmt), '
+       'metamodel.instances_populated[before + n_insts(self.statements, j)][1] is self.statements[j] and '
+       'metamodel.instances_populated[before + n_insts(self.statements, j)][0] == (len(self.statements[j].names) > 0)) '
+       'for j in range(0, %s))')
+M.contract('xtuml.load.ModelLoader.populate_instances', [('self', LOADER), ('metamodel', MM)], returns=NONE,
+           lets={'before': 'len(metamodel.instances_populated)'},
+           requires={'a-metamodel': 'metamodel is not None', 'statements': 'all(s is not None for s in self.statements)'},
+           ensures={'one-creation-per-insert-statement': 'len(metamodel.instances_populated) == before + n_insts(self.statements, len(self.statements))',
+                    'each-statement-in-statement-order-through-the-route-it-was-written-for': INS % 'len(self.statements)',
+                    'earlier-creations-kept': 'seq_take(metamodel.instances_populated, before) == old(metamodel.instances_populated)',
+                    'the-loader-keeps-its-statements': 'self.statements == old(self.statements)'},
+           modifies=['metamodel.instances_populated'],
+           loops={0: Loop(inv={'walks-the-statements': '_seq == self.statements',
+                               'count-so-far': 'len(metamodel.instances_populated) == before + n_insts(self.statements, _i)',
+                               'created-so-far': INS % '_i',
+                               'positions-are-below-the-count': 'all(implies(isinstance(self.statements[j], CreateInstanceStmt), 0 <= n_insts(self.statements, j) '
+                                                                'and n_insts(self.statements, j) < n_insts(self.statements, _i)) for j in range(0, _i)) and n_insts(self.statements, _i) >= 0',
+                               'earlier-kept': 'len(metamodel.instances_populated) >= before and seq_take(metamodel.instances_populated, before) == old(metamodel.instances_populated)'})})
